@@ -244,11 +244,10 @@ func badHeader(rng *rand.Rand, payload []byte) ([]byte, string) {
 }
 
 func (r *run) emitM(evs []mEvent, did, sid int) {
-	if len(evs) > 300 { // a flood: keep the trace small, the summary reports it
+	if len(evs) > 300 { // a flood: keep the trace small (the bookkeeping below still sees every call), the summary reports it
 		r.floodEmit += int64(len(evs) - 300)
-		evs = evs[:300]
 	}
-	for _, e := range evs {
+	for i, e := range evs {
 		c, ok := r.cliAddr[e.Client]
 		if !ok && e.M != "CS" {
 			c = -1
@@ -286,7 +285,9 @@ func (r *run) emitM(evs []mEvent, did, sid int) {
 				}
 			}
 		}
-		r.tr.Emit(line)
+		if i < 300 {
+			r.tr.Emit(line)
+		}
 	}
 }
 
